@@ -413,7 +413,7 @@ StdExec(H, r, ins) ==
       [] ins.op = "advance_pc" -> LET a == StdOpAdvance(H, r, ins.v) IN StdRes(a.wf, a.r, FALSE)
       [] ins.op = "advance_line" ->
             LET l == StdLineAdvance(r.line, ins.v) IN
-            StdRes(l[1] /\ ins.v # MinI64, [r EXCEPT !.line = l[2]], FALSE)
+            StdRes(l[1], [r EXCEPT !.line = l[2]], FALSE)
       [] ins.op = "const_add_pc" ->
             LET a == StdOpAdvance(H, r, Nat8((255 - H.obase) \div H.lrange)) IN StdRes(a.wf, a.r, FALSE)
       [] ins.op = "fixed_advance_pc" ->
